@@ -30,9 +30,10 @@ print()
 for k,v in sigs.most_common(30):
     print(v,k)
     c=ex[k]['case']
-    if isinstance(c,dict):
+    if isinstance(c,dict) and 'stmt' in c:
         for st in c.get('setup',[]):
             if st.startswith('CREATE'): print('     ',st)
         print('      STMT:',c.get('stmt'))
         print('      engine:',str(c.get('engine'))[:160]); print('      model :',str(c.get('model'))[:160]); print('      diff:',c.get('diff'),'panics:',c.get('panics'))
-    else: print('     ',ex[k]['detail'][:200], str(c)[:200])
+    if isinstance(c,dict) and c.get('script'):
+        print('      DETAIL:',ex[k]['detail'][:300]); print('      SCRIPT:',' // '.join(c['script'])[:1500]); print('      panics:',c.get('panics'))
